@@ -13,6 +13,7 @@ EXPLANATION = (
     "C13.G5: every Err the guard constructs is reachable only through an 'equals reserved literal' edge; other errors are propagated from its own recursion. "
     "C13.G4 (informational): names the verifier's unpackers treat as structure vs. names the guard rejects."
     " C13.G2/G3 also recognise a search over the reserved names (`NAMES.iter().find(|n| map.contains_key(n))`) and a walk over `map.values()`."
+    " C13.G6: the claims handed to the payload builders derive from the scanned claims parameter without a JSON parse on the way (a value parsed from text after the scan was never scanned). G3 accepts a `filter` whose predicate keeps every array and object (scalars have nothing beneath them)."
 )
 ASSUMPTIONS = [
     "string equality (`PartialEq` between String/&str) is exact (trusted base)",
